@@ -1,2 +1,4 @@
 //! Independent reference implementations used as oracles.
 pub mod dd;
+pub mod linalg;
+pub mod quad;
